@@ -1,6 +1,21 @@
-"""setup + self-tests (determinism, replay) of the simulator itself"""
+"""setup + self-tests of the simulator itself.
+
+determinism: for every engine, N run seeds are executed (a) by 4 workers, (b) by 16 workers (different
+sharding, different processes), (c) -- for the engines that claim hash-seed independence -- under two
+other PYTHONHASHSEED values; the per-run event-log digests must be identical.  Run before any property
+is believed; repeat after every new seam or fault kind.
+"""
+import importlib
+import json
 import os
+import shutil
 import sys
+import tempfile
+import time
+
+HASH_INDEPENDENT = ["C01", "C02", "C03", "C07", "C08", "C09", "C10", "C13", "C18"]
+SEEDED_STREAMS = ["C14", "C16", "C17"]  # genuine generators: sample values depend on frozenset order -> pinned to one hash seed
+SAMPLE = {"C01": 1200, "C02": 1200, "C03": 2500, "C07": 500, "C08": 300, "C09": 1500, "C10": 1200, "C13": 1000, "C18": 4000, "C14": 2500, "C16": 48, "C17": 250}
 
 
 def setup():
@@ -18,6 +33,58 @@ def setup():
     return 0
 
 
+def determinism(props, seed, scale=1.0):
+    from .core import driver
+    from .core.boot import VERIF
+
+    report = {}
+    bad = 0
+    out = tempfile.mkdtemp(prefix="vk-selftest-")
+    try:
+        for prop in props:
+            mod = importlib.import_module("votesim.props." + prop.lower())
+            n = max(16, int(SAMPLE[prop] * scale))
+            saved_runs, saved_hs = dict(mod.RUNS), dict(getattr(mod, "HASHSEEDS", {}))
+            mod.RUNS = dict(mod.RUNS, quick=n)
+            configs = [("w4-h0", 4, [0]), ("w16-h0", 16, [0])]
+            if prop in HASH_INDEPENDENT:
+                configs.append(("w8-h1+h31337", 8, [1, 31337]))
+            digs = {}
+            t0 = time.monotonic()
+            for name, K, hs in configs:
+                mod.HASHSEEDS = {"quick": hs}
+                hv = getattr(mod, "hashseed_violation", None)
+                if hv is not None:
+                    del mod.hashseed_violation  # the self-test compares digests itself
+                try:
+                    rc, ev, d = driver.run_check(mod, "quick", seed, workers=K, keep_digests=True, quiet=True, hashseeds=hs, out_dir=out)
+                finally:
+                    if hv is not None:
+                        mod.hashseed_violation = hv
+                if rc == 2:
+                    print(f"selftest {prop} {name}: harness failure")
+                    bad += 1
+                for i, per in d.items():
+                    for h, dg in per.items():
+                        digs.setdefault(i, {})[f"{name}:{h}"] = dg
+            mod.RUNS, mod.HASHSEEDS = saved_runs, saved_hs
+            diverged = [i for i, per in digs.items() if len(set(per.values())) > 1 or len(per) < sum(len(c[2]) for c in configs)]
+            report[prop] = {"runs": len(digs), "executions_per_run": sum(len(c[2]) for c in configs), "configs": [c[0] for c in configs],
+                            "diverged": len(diverged), "examples": {i: digs[i] for i in diverged[:3]}, "wall_s": round(time.monotonic() - t0, 1)}
+            print(f"selftest determinism {prop}: {len(digs)} runs x {report[prop]['executions_per_run']} executions, diverged={len(diverged)} ({report[prop]['wall_s']}s)")
+            bad += len(diverged)
+    finally:
+        shutil.rmtree(out, ignore_errors=True)
+    with open(os.path.join(VERIF, "selftest_report.json"), "w") as fh:
+        json.dump({"seed": seed, "determinism": report}, fh, indent=1, sort_keys=True)
+    return bad
+
+
 def main(args):
-    print("selftest: not yet implemented")
-    return 2
+    props = HASH_INDEPENDENT + SEEDED_STREAMS
+    scale = 1.0 if args.tier == "quick" else 4.0
+    if args.runs:
+        scale = args.runs / 1000.0
+    bad = determinism(props, args.seed, scale)
+    print("selftest:", "OK" if not bad else f"{bad} PROBLEM(S)")
+    return 0 if not bad else 2
